@@ -371,7 +371,9 @@ def main(argv):
     t0 = time.time()
     workdir = os.path.join(VERIF, "work", "%s-%d" % (prop, os.getpid()))
     os.makedirs(workdir, exist_ok=True)
-    known = [k for k in load_known() if k.get("property") == prop]
+    # a listed finding is identified by its obligation id (unit/function/class/clause hash); a unit that serves two properties
+    # reports it in both runs, always under the property it is listed for
+    known = [k for k in load_known() if k.get("property") == prop or k.get("obligation", "").split("/")[0] in [u["unit"] for u in cfg.get("verus", [])]]
     results = []
     kres = []
     try:
